@@ -35,10 +35,23 @@ class ClampBase(abc.ABC):
     def get_params(self) -> List[float]:
         """Returns parameters from initial vertex position"""
 
-        def distance_from_vertex(params):
-            return f.norm(self.position - self.function(params))
+        # A least-squares problem on the vector from vertex to the clamp's point: the distance itself is
+        # not smooth at its minimum and flat around it, so minimizing it stops early
+        # (by an amount that grows with the size of the model and the distance from the constraint)
+        def vector_from_vertex(params):
+            return np.asarray(self.function(params), dtype=float) - self.position
 
-        result = scipy.optimize.minimize(distance_from_vertex, self.initial_guess, bounds=self.bounds, tol=TOL)
+        if self.bounds is None:
+            lower, upper = -np.inf, np.inf
+        else:
+            bounds = np.array(self.bounds, dtype=float)
+            lower, upper = bounds[:, 0], bounds[:, 1]
+
+        guess = np.clip(np.asarray(self.initial_guess, dtype=float), lower, upper)
+
+        result = scipy.optimize.least_squares(
+            vector_from_vertex, guess, bounds=(lower, upper), method="dogbox", xtol=1e-15, ftol=1e-15, gtol=1e-15
+        )
 
         return result.x
 
